@@ -12,11 +12,11 @@ OWNERSHIP = b"<OwnershipControls><Rule><ObjectOwnership>BucketOwnerPreferred</Ob
 LEGALHOLD = b"<LegalHold><Status>OFF</Status></LegalHold>"
 
 
-def endpoints(uid):
+def endpoints(uid, vid=""):
     """(name, method, path, query, body, headers, action, resource kind, acl permission, mutating)"""
     E = []
-    def add(name, method, path, query, body, headers, action, obj, perm, mut):
-        E.append(dict(name=name, method=method, path=path, query=query or {}, body=body, headers=headers or {}, action=action, obj=obj, perm=perm, mut=mut))
+    def add(name, method, path, query, body, headers, action, obj, perm, mut, sibling=None):
+        E.append(dict(name=name, method=method, path=path, query=query or {}, body=body, headers=headers or {}, action=action, obj=obj, perm=perm, mut=mut, sibling=sibling))
     o, b = True, False
     add("HeadBucket", "HEAD", "/bk1", None, b"", None, "s3:ListBucket", b, "READ", False)
     add("ListObjects", "GET", "/bk1", None, b"", None, "s3:ListBucket", b, "READ", False)
@@ -45,6 +45,16 @@ def endpoints(uid):
     add("CreateMultipartUpload", "POST", "/bk1/priv/mp2", {"uploads": ""}, b"", None, "s3:PutObject", o, "WRITE", True)
     add("DeleteObject", "DELETE", "/bk1/priv/o2", None, b"", None, "s3:DeleteObject", o, "WRITE", True)
     add("AbortMultipartUpload", "DELETE", "/bk1/priv/mp3", {"uploadId": "nosuch"}, b"", None, "s3:AbortMultipartUpload", o, "WRITE", True)
+    if vid:
+        # reading a version by id is its own action: the right to read the current version does not include it
+        add("GetObject?versionId", "GET", "/bk1/priv/v", {"versionId": vid}, b"", None, "s3:GetObjectVersion", o, "READ", False, "s3:GetObject")
+        add("GetObject?versionId=null", "GET", "/bk1/priv/v", {"versionId": "null"}, b"", None, "s3:GetObjectVersion", o, "READ", False, "s3:GetObject")
+        add("ListObjectVersions", "GET", "/bk1", {"versions": ""}, b"", None, "s3:ListBucketVersions", b, "READ", False, "s3:ListBucket")
+    add("GetObjectRetention", "GET", "/bk1/priv/o1", {"retention": ""}, b"", None, "s3:GetObjectRetention", o, "READ", False)
+    add("GetObjectLegalHold", "GET", "/bk1/priv/o1", {"legal-hold": ""}, b"", None, "s3:GetObjectLegalHold", o, "READ", False)
+    add("GetBucketCors", "GET", "/bk1", {"cors": ""}, b"", None, "s3:GetBucketCORS", b, "READ", False)
+    add("DeleteBucketCors", "DELETE", "/bk1", {"cors": ""}, b"", None, "s3:PutBucketCORS", b, "WRITE", True)
+    add("DeleteBucketOwnershipControls", "DELETE", "/bk1", {"ownershipControls": ""}, b"", None, "s3:PutBucketOwnershipControls", b, "WRITE", True)
     return E
 
 
@@ -78,14 +88,21 @@ def setup(site, g):
     ok &= root.req("PUT", "/bk1", query={"ownershipControls": ""}, body=OWNERSHIP).status in (200, 204)
     r = owner.req("POST", "/bk1/priv/mp", query={"uploads": ""})
     uid = r.xml().findtext("UploadId") if r.status == 200 else ""
-    return root, owner, uid, ok
+    # versions: priv/v exists before versioning is enabled (the "null" version), then gets a second version
+    ok &= owner.req("PUT", "/bk1/priv/v", body=b"draft-before-versioning").status == 200
+    ok &= root.req("PUT", "/bk1", query={"versioning": ""}, body=VERSIONING.replace(b"Suspended", b"Enabled")).status == 200
+    r = owner.req("PUT", "/bk1/priv/v", body=b"second-version")
+    ok &= r.status == 200
+    vid = r.headers.get("x-amz-version-id", "")
+    ok &= bool(vid)
+    return root, owner, uid, vid, ok
 
 
 def run(chk):
     quick = chk.tier == "quick"
-    chk.rule = ("a case is (endpoint, caller, policy or ACL on the bucket): 27 endpoints x {policy allowing exactly that action on exactly that "
+    chk.rule = ("a case is (endpoint, caller, policy or ACL on the bucket): 35 endpoints x {policy allowing exactly that action on exactly that "
                 "resource, the action on another resource, a sibling action on the resource, Allow plus Deny, policy on another bucket only, "
-                "ACL with / without the needed permission}, plus batch delete over mixed keys, cross-bucket copies, and VerifyAccess called "
+                "ACL with / without the needed permission}, plus batch delete over mixed keys, cross-bucket copies, same-bucket copies from a policy-denied key in 10 spellings of the source (CopyObject, UploadPartCopy), and VerifyAccess called "
                 "directly on generated (policy, ACL, caller, request) tuples; non-trivial when the request reaches its handler; distinct by content.")
     gen.regenerate()
     corr = gobuild.build_tool("corr")
@@ -102,9 +119,9 @@ def run(chk):
             chk.obligation("route table rows (s3api/controllers/base.go lines) whose backend call is not preceded by the check the Spec demands: %s" % br, False, str(br))
     rnd = chk.rnd
     rows = []
-    with gw.Site({"iam": True}, name="c03") as site:
+    with gw.Site({"iam": True, "versioning": True}, name="c03") as site:
         g = site.gateway(gwbin)
-        root, owner, uid, ok = setup(site, g)
+        root, owner, uid, vid, ok = setup(site, g)
         chk.require(ok, "c03:setup", "scenario setup with valid, authorised callers failed")
         alice = s3c.Client(g.port, "alice", "alice-secret")
         roots = (site.root,)
@@ -138,7 +155,7 @@ def run(chk):
                     if ch:
                         chk.fail("c03:denied-request-changed-state:%s" % ep["name"], "a denied %s changed the storage: %s" % (ep["name"], ch[:3]), row)
 
-        eps = endpoints(uid)
+        eps = endpoints(uid, vid)
         over_denied = []
         STRICTER = {"GetBucketVersioning"}      # additionally limited to admins and the bucket owner by the controller
         for ep in eps:
@@ -147,6 +164,7 @@ def run(chk):
             sibling = "s3:GetObjectAcl" if ep["action"] != "s3:GetObjectAcl" else "s3:GetObject"
             if not ep["obj"]:
                 sibling = "s3:GetBucketAcl" if ep["action"] != "s3:GetBucketAcl" else "s3:ListBucket"
+            sibling = ep.get("sibling") or sibling
             configs = [
                 ("policy allows exactly this action on this resource", policy([allow("alice", ep["action"], res)]), True),
                 ("policy allows the action on another resource only", policy([allow("alice", ep["action"], other_res)]), False),
@@ -206,6 +224,45 @@ def run(chk):
         rows.append(row); chk.case(("CopyObject", "ok"), True); chk.traces += 1
         if denied(r):
             over_denied.append(row)
+        # copies whose source is a key of the same bucket the policy does not let alice read, in every spelling of the source,
+        # through CopyObject and UploadPartCopy (the access check must look at the key the backend will read)
+        set_policy(policy([allow("alice", "s3:PutObject", "bk1/*"), allow("alice", "s3:GetObject", "bk1/*"),
+                           allow("alice", "s3:GetObjectVersion", "bk1/*"), deny("alice", "s3:GetObject", "bk1/priv/*"),
+                           deny("alice", "s3:GetObjectVersion", "bk1/priv/*")]))
+        r = alice.req("POST", "/bk1/pub/mpcopy", query={"uploads": ""})
+        cuid = r.xml().findtext("UploadId") if r.status == 200 and r.xml() is not None else ""
+        chk.tie("alice can start a multipart upload under pub/ (copy scenario)", bool(cuid), str(r))
+        for spelling in ("bk1/priv/o1", "/bk1/priv/o1", "bk1/priv%2Fo1", "/bk1/priv%2Fo1", "bk1/priv%2fo1", "bk1/%70riv/o1", "bk1/priv/%6F1",
+                         "bk1/priv/v?versionId=null", "bk1/priv%2Fv?versionId=null", "bk1/priv/v?versionId=" + vid):
+            for kind in ("CopyObject", "UploadPartCopy"):
+                if kind == "CopyObject":
+                    r = alice.req("PUT", "/bk1/pub/stolen2", headers={"x-amz-copy-source": spelling})
+                    got = root.req("GET", "/bk1/pub/stolen2")
+                    leaked = got.status == 200
+                    root.req("DELETE", "/bk1/pub/stolen2")
+                else:
+                    r = alice.req("PUT", "/bk1/pub/mpcopy", query={"partNumber": "1", "uploadId": cuid}, headers={"x-amz-copy-source": spelling})
+                    lp = root.req("GET", "/bk1/pub/mpcopy", query={"uploadId": cuid})
+                    leaked = lp.status == 200 and b"<PartNumber>" in (lp.body or b"")
+                row = {"endpoint": kind, "config": "policy: alice may write and read bk1/*, Deny read on bk1/priv/*; source " + spelling,
+                       "status": r.status, "code": r.code, "data_copied": leaked}
+                rows.append(row); chk.case((kind, "same-bucket-denied-source", spelling), True); chk.traces += 1
+                if leaked or (200 <= r.status < 300):
+                    chk.fail("c03:copy-from-denied-key:%s" % kind, "alice %s from %s (a key the policy denies her) answered %d and %s"
+                             % (kind, spelling, r.status, "copied the data" if leaked else "reported success"), row)
+                    if kind == "UploadPartCopy":      # start over with a clean upload
+                        root.req("DELETE", "/bk1/pub/mpcopy", query={"uploadId": cuid})
+                        r0 = alice.req("POST", "/bk1/pub/mpcopy", query={"uploads": ""})
+                        cuid = r0.xml().findtext("UploadId") if r0.status == 200 and r0.xml() is not None else ""
+        for kind, src in (("CopyObject", "bk1/pub/o1"), ("UploadPartCopy", "bk1/pub%2Fo1")):
+            if kind == "CopyObject":
+                r = alice.req("PUT", "/bk1/pub/copied2", headers={"x-amz-copy-source": src})
+            else:
+                r = alice.req("PUT", "/bk1/pub/mpcopy", query={"partNumber": "2", "uploadId": cuid}, headers={"x-amz-copy-source": src})
+            row = {"endpoint": kind, "config": "readable source " + src, "status": r.status, "code": r.code}
+            rows.append(row); chk.case((kind, "same-bucket-allowed-source"), True); chk.traces += 1
+            if denied(r):
+                over_denied.append(row)
         # non-admin ListBuckets shows only owned buckets
         lb = alice.req("GET", "/")
         names = [b.findtext("Name") for b in lb.xml().iter("Bucket")] if lb.status == 200 and lb.xml() is not None else None
